@@ -1957,7 +1957,10 @@ fn step_unregistered(m: &M, cfg: &SpecCfg, actor: &Actor, verb: &str, p: &[Strin
                     return Some(e);
                 }
                 "LIST" => {
+                    // a query: an open negotiation stays open, a closed one closed
                     e.actor_unchecked = true;
+                    e.no_welcome = true;
+                    e.cap_open_after = Some(info.caps_negotation);
                     return Some(e);
                 }
                 "END" => {
